@@ -127,6 +127,26 @@ def run_unit(tier="quick"):
                     res.append(R("flow::no_global_state::module_binding_immutable", immut or not isinstance(t, ast.Name)
                                  or t.id.startswith("__") or isinstance(v, (ast.Subscript, ast.Attribute)), P14 + P20,
                                  site(st), f"module-level binding {ast.unparse(t)} = {ast.unparse(v)[:60]}"))
+        # ---- class-level bindings: a mutable object bound in a class body is shared by every instance (and by
+        # every optimisation in the process) unless each instance rebinds it
+        for cd in ast.walk(tree):
+            if not isinstance(cd, ast.ClassDef):
+                continue
+            for st in cd.body:
+                if not isinstance(st, (ast.Assign, ast.AnnAssign)) or st.value is None:
+                    continue
+                tgts = st.targets if isinstance(st, ast.Assign) else [st.target]
+                v = st.value
+                immut = isinstance(v, (ast.Constant, ast.Tuple, ast.Name, ast.Attribute, ast.UnaryOp)) and all(
+                    isinstance(e, ast.Constant) for e in getattr(v, "elts", []))
+                is_field = isinstance(v, ast.Call) and isinstance(v.func, ast.Name) and v.func.id == "field"
+                for t in tgts:
+                    dunder = isinstance(t, ast.Name) and t.id.startswith("__")
+                    if isinstance(t, ast.Name) and not (immut or is_field or dunder):
+                        mutable_globals.add(t.id)
+                    res.append(R("flow::no_global_state::class_binding_immutable", immut or is_field or dunder,
+                                 P14 + P20 + ("C16", "C15"), site(st),
+                                 f"class-level binding {cd.name}.{ast.unparse(t)} = {ast.unparse(v)[:60]}"))
         for n in ast.walk(tree):
             if isinstance(n, (ast.Global, ast.Nonlocal)):
                 res.append(R("flow::no_global_state::no_global_statement", False, P14 + P20, site(n),
